@@ -420,7 +420,7 @@ func rtGen(g *Gen) {
 	// 1. characters and one-character strings: first planes exhaustively, IsPrint transitions
 	limit := rune(0x300)
 	if g.Thorough() {
-		limit = 0x3100
+		limit = 0x11000 // the whole BMP and the start of plane 1
 	}
 	emitCP := func(kind string, c rune) {
 		if !validScalar(c) {
@@ -443,7 +443,7 @@ func rtGen(g *Gen) {
 	}
 	nrand := 300
 	if g.Thorough() {
-		nrand = 30000
+		nrand = 100000
 	}
 	for i := 0; i < nrand; i++ {
 		emitCP("random-plane", rune(g.Rng.Intn(0x110000)))
@@ -457,7 +457,7 @@ func rtGen(g *Gen) {
 	}
 	nstr := 1500
 	if g.Thorough() {
-		nstr = 60000
+		nstr = 200000
 	}
 	for i := 0; i < nstr; i++ {
 		s, k := r.randString()
@@ -487,7 +487,7 @@ func rtGen(g *Gen) {
 	}
 	nfl := 2000
 	if g.Thorough() {
-		nfl = 100000
+		nfl = 300000
 	}
 	for i := 0; i < nfl; i++ {
 		f := r.randFloat()
@@ -536,7 +536,7 @@ func rtGen(g *Gen) {
 	}
 	nval := 2500
 	if g.Thorough() {
-		nval = 80000
+		nval = 250000
 	}
 	for i := 0; i < nval; i++ {
 		budget := 4 + g.Rng.Intn(40)
@@ -554,7 +554,7 @@ func rtGen(g *Gen) {
 	}
 	njs := 1500
 	if g.Thorough() {
-		njs = 50000
+		njs = 150000
 	}
 	for i := 0; i < njs; i++ {
 		budget := 4 + g.Rng.Intn(30)
@@ -598,7 +598,7 @@ func rtGen(g *Gen) {
 	r.enumSpellings(maxLen)
 	nlit := 3000
 	if g.Thorough() {
-		nlit = 100000
+		nlit = 300000
 	}
 	for i := 0; i < nlit; i++ {
 		s, k := r.randLiteral()
